@@ -34,7 +34,7 @@ pub trait WriteSource {
             if let Some(s) = self.write(opt.clone()) {
                 return s;
             } else {
-                opt.max_width += opt.max_width / 2;
+                opt.max_width = opt.max_width.saturating_add(opt.max_width / 2);
                 opt.reset_line();
             }
         }
